@@ -44,8 +44,9 @@ pub fn romberg_definite<P>(
 where
     P: PolynomialTraits,
 {
-    let maxiter = maxiter as usize;
     let mut romberg_table: Vec<Vec<f64>> = vec![vec![0.0; 10]; 10];
+    // Iteration `iter` fills row `iter + 1`, so the table bounds the iteration count
+    let maxiter = (maxiter as usize).min(romberg_table.len() - 2);
     let mut iter = 0_usize;
     let mut segments = 1;
     romberg_table[1][1] = trapezoidal_rule(poly, start, end, segments)?;
